@@ -55,6 +55,8 @@ def base_cfg(rng, idx, entry=None, T=None, s=None, n=None, tuned=False, test=Fal
         d["oc"] = ",".join("%d:%d" % (k, rng.choice([0, 1, 9, 12345])) for k in rng.sample([0, 1, 2, 3], rng.randrange(1, 3)))
     if ishape == "u" and rng.random() < 0.7:
         d["countas"] = sorted(rng.sample([0, 1, 2, 3], rng.randrange(1, 3)))
+    if "bc" in d and ("ic" in d or "countas" in d) and rng.random() < 0.5:
+        d["bclate"] = 1      # the constant counters are set after the per-input ones (same or other kinds)
     return d
 
 
@@ -72,6 +74,11 @@ def add_allocs(d, rng, heavy=True):
     d["dan"] = rng.choice([0, 1, 2])
     d["dasz"] = rng.choice([8, 40])
     d["can"] = rng.choice([0, 0, 1])
+    if d.get("T", 1) > 1 and d["caops"] and rng.random() < 0.3:
+        # only some threads allocate (one thread initialises a shared lazy value), and the threads differ in speed
+        d["camask"] = rng.randrange(1, (1 << d["T"]) - 1)
+        d["cthr"] = rng.choice([3, 7, 50])
+        d["gan"] = d["dan"] = d["can"] = 0
     if rng.random() < 0.15:
         # release-only traffic: the threads free blocks that the main thread allocated before the run and allocate
         # nothing themselves (draining a pre-filled pool), inside the calls, the generator or the drops
@@ -369,11 +376,15 @@ def gen_c05(tier, seed):
         d["q"] = rng.choice([1, 1, 1, 5])
         d["s"] = rng.choice([1, 1, 1, 2, 3, 7])
         d["n"] = rng.choice([0, 1, 2, 3, 4, 5, 6, 7, 8, 15, 16, 31])
+        if rng.random() < 0.3:
+            # larger sample counts, even and odd, on both sides of library thresholds (insertion-sort cut-offs, chunk sizes)
+            d["n"] = rng.choice([17, 18, 19, 20, 21, 22, 24, 32, 33, 34, 48, 50, 63, 64, 65, 100, 128, 129, 200, 256, 257])
+            d["s"] = rng.choice([1, 1, 2])
         mode = rng.randrange(5)
         if mode == 0:      # heavy ties
             d["clist"] = [rng.choice([5, 5, 9]) for _ in range(rng.randrange(1, 5))]
         elif mode == 1:    # arbitrary multiset
-            d["clist"] = [rng.randrange(0, 1000) for _ in range(rng.randrange(1, 40))]
+            d["clist"] = [rng.randrange(0, 1000) for _ in range(rng.randrange(1, 40) if d["n"] < 17 else rng.choice([d["n"], d["n"] * 2 + 1, 37, 101]))]
         elif mode == 2:    # huge values
             d["clist"] = [rng.choice([0, 1, 2 ** 40, 2 ** 61, 2 ** 62 - 5]) for _ in range(rng.randrange(1, 6))]
             d["freq"] = rng.choice([1, 2, 1000])
